@@ -16,10 +16,12 @@ type Profile struct {
 	MaxVals        int
 	W              map[string]int
 	Sinks          []string // drawn uniformly, e.g. {"ok","ok","nil","fail"}
+	SPEs           []uint64 // SLOTS_PER_EPOCH drawn uniformly; nil: 4
 }
 
 func ProfileFor(prop string) Profile {
-	p := Profile{MinOps: 10, MaxOps: 80, MaxNodes: 40, MaxVals: 12}
+	// epochs of 3, 5 and 6 slots beside the usual 4: a slot -> epoch conversion by shift or mask is only right for powers of two
+	p := Profile{MinOps: 10, MaxOps: 80, MaxNodes: 40, MaxVals: 12, SPEs: []uint64{4, 4, 4, 3, 6, 5}}
 	switch prop {
 	case "C09":
 		p.W = map[string]int{KBlock: 22, KSlot: 8, KAtt: 30, KUpd: 7, KPin: 3, KHead: 21, KFHead: 9}
@@ -610,8 +612,12 @@ func Gen(t *rapid.T, p Profile) *Case {
 	c.Cfg.AnchorRoot = 1
 	c.Cfg.AnchorParent = 0
 	g.t = t
-	c.Cfg.AnchorSlot = []uint64{0, 0, 0, 0, 4, 8}[g.uni(6, "anchor_slot")]
-	c.Cfg.JE = c.Cfg.AnchorSlot / 4
+	if len(p.SPEs) > 0 {
+		c.Cfg.SPE = p.SPEs[g.uni(len(p.SPEs), "spe")]
+	}
+	spe := c.Cfg.SPE
+	c.Cfg.AnchorSlot = []uint64{0, 0, 0, 0, spe, 2 * spe}[g.uni(6, "anchor_slot")]
+	c.Cfg.JE = c.Cfg.AnchorSlot / spe
 	c.Cfg.FE = c.Cfg.JE
 	g.nval = g.intn(1, p.MaxVals, "nval")
 	c.Cfg.Bal = g.genBal("bal0")
@@ -621,7 +627,7 @@ func Gen(t *rapid.T, p Profile) *Case {
 	}
 	ar := g.root(1)
 	g.root(0)
-	g.m = fcmodel.New(4, fcmodel.Checkpoint{Root: ar, Epoch: c.Cfg.FE}, fcmodel.Checkpoint{Root: ar, Epoch: c.Cfg.JE},
+	g.m = fcmodel.New(spe, fcmodel.Checkpoint{Root: ar, Epoch: c.Cfg.FE}, fcmodel.Checkpoint{Root: ar, Epoch: c.Cfg.JE},
 		fcmodel.Ref{Root: ar, Slot: c.Cfg.AnchorSlot}, g.root(0), c.Cfg.Bal)
 	g.order = []fcmodel.Ref{{Root: ar, Slot: c.Cfg.AnchorSlot}}
 	var kinds []string
